@@ -237,6 +237,9 @@ func c17ExpectRequestHeaders(req *vfReq, injected []string) map[string]string {
 	return out
 }
 
+var c17RoutingSigs = map[string]bool{"c17:not-delivered": true, "c17:delivered-more-than-once": true, "c17:wrong-upstream": true, "c17:delivered-unexpectedly": true,
+	"c17:unrouted-not-404": true, "c17:trailing-slash-redirect": true, "c17:unclean-path-not-redirected": true, "c17:static-response": true, "c17:file-response": true, "c17:redirect-location-differs": true}
+
 type c17Judge struct {
 	run  *vfRun
 	w    *vfWorld
@@ -377,6 +380,11 @@ func (j *c17Judge) judgeRewriteTarget(u *c17Up, c *c17Case, observed string) []c
 		}
 	case obsDec == exp.DecPath:
 		j.run.Count("rewrite_escape_positions_not_comparable", 1)
+	case exp.EscReserved && strings.Contains(strings.ToUpper(c.Path), "%3F") && exp.LitBroken && (observed == "/" || observed == ""):
+		// known deviation, tight class: the escaped '?' was decoded, what follows it is not a parsable query, and the
+		// whole target collapses to the upstream's root (request query lost as well)
+		add(c17SigF9, "rule %s -> %s: request %q reached the upstream as %q — the escaped '?' was decoded, the remainder is no parsable query and the whole target was dropped", u.Path, u.Rewrite, c.Target(), observed)
+		return f
 	case exp.EscReserved && strings.Contains(strings.ToUpper(c.Path), "%3F") && obsDec == exp.LitPath:
 		// known deviation, tight class: an escaped '?' of the path was decoded and now delimits the query
 		add(c17SigF9, "rule %s -> %s: request path %q reached the upstream as %q — the escaped '?' was decoded and cut the path", u.Path, u.Rewrite, c.Path, observed)
@@ -460,6 +468,18 @@ func (j *c17Judge) judgeResponse(c *c17Case, resp *vfResp) []c17Finding {
 		add("c17:response-header-added", "client received %s=%q which the upstream did not send and is not a documented addition", k, vv)
 	}
 	return f
+}
+
+// c17FileLookup: what the served directory holds at rel ("/name"): a file (with content), a directory, or nothing.
+func c17FileLookup(rel string) (string, string) {
+	name := strings.TrimPrefix(rel, "/")
+	if content, ok := c17Files[name]; ok {
+		return "file", content
+	}
+	if name == "" || name == "sub" || name == "sub/" {
+		return "dir", ""
+	}
+	return "none", ""
 }
 
 func c17FilePathFor(u *c17Up, c *c17Case) (string, bool) {
@@ -551,24 +571,27 @@ func (j *c17Judge) judgeUnder(s *c17Set, d c17Decision, c *c17Case, req *vfReq, 
 				j.run.Count("file_path_not_judged", 1)
 				return f
 			}
-			content, exists := c17Files[strings.TrimPrefix(rel, "/")]
-			if d.Up.Rewrite != "" {
-				if e := c17ExpectRewrite(d.Up, c.Path); e.EscReserved && strings.Contains(strings.ToUpper(c.Path), "%3F") && exists {
-					// the rewritten path is cut at the decoded '?': known deviation F9, seen here as a 404 for an existing file
-					if resp.Code == 404 {
-						add(c17SigF9, "rule %s -> %s (file upstream): %q names the existing file %q, but the escaped '?' was decoded and cut the path: 404", d.Up.Path, d.Up.Rewrite, c.Path, rel)
-						return f
-					}
+			var ff []c17Finding
+			kind, content := c17FileLookup(rel)
+			switch {
+			case kind == "file" && resp.Code != 200:
+				ff = append(ff, c17Finding{"c17:file-response", fmt.Sprintf("file upstream %s: %q is the existing file %q, client got status %d", d.Up.ID, c.Path, rel, resp.Code)})
+			case kind == "file" && c.Method != "HEAD" && string(resp.Body) != content:
+				ff = append(ff, c17Finding{"c17:file-response", fmt.Sprintf("file upstream %s: %q must deliver the %d bytes of %q, client got %d bytes", d.Up.ID, c.Path, len(content), rel, len(resp.Body))})
+			case kind == "none" && resp.Code != 404:
+				ff = append(ff, c17Finding{"c17:file-response", fmt.Sprintf("file upstream %s: %q names no file (%q), client got status %d", d.Up.ID, c.Path, rel, resp.Code)})
+			case kind == "dir":
+				j.run.Count("file_path_not_judged", 1)
+			}
+			if len(ff) > 0 && d.Up.Rewrite != "" && strings.Contains(strings.ToUpper(c.Path), "%3F") {
+				// known deviation F9 seen through a file upstream: the escaped '?' is decoded and cuts the rewritten path
+				e := c17ExpectRewrite(d.Up, c.Path)
+				lk, lc := c17FileLookup(e.LitPath)
+				if (lk == "file" && resp.Code == 200 && (c.Method == "HEAD" || string(resp.Body) == lc)) || (lk == "none" && resp.Code == 404) || (lk == "dir" && (resp.Code == 200 || resp.Code == 301)) {
+					ff = []c17Finding{{c17SigF9, fmt.Sprintf("rule %s -> %s (file upstream): %q names %q, but the escaped '?' was decoded and cut the path to %q: status %d", d.Up.Path, d.Up.Rewrite, c.Path, rel, e.LitPath, resp.Code)}}
 				}
 			}
-			switch {
-			case exists && resp.Code != 200:
-				add("c17:file-response", "file upstream %s: %q is the existing file %q, client got status %d", d.Up.ID, c.Path, rel, resp.Code)
-			case exists && c.Method != "HEAD" && string(resp.Body) != content:
-				add("c17:file-response", "file upstream %s: %q must deliver the %d bytes of %q, client got %d bytes", d.Up.ID, c.Path, len(content), rel, len(resp.Body))
-			case !exists && resp.Code != 404:
-				add("c17:file-response", "file upstream %s: %q names no file (%q), client got status %d", d.Up.ID, c.Path, rel, resp.Code)
-			}
+			f = append(f, ff...)
 		}
 	case "notfound":
 		if resp.Code != 404 {
@@ -619,14 +642,22 @@ func (j *c17Judge) judge(s *c17Set, c *c17Case) {
 	if len(decisions) == 0 {
 		run.T.Fatalf("c17: generated an undecodable path %q", c.Path)
 	}
+	// several acceptable readings (proxyRawPath only): judge under the first one whose routing outcome was observed
 	var best []c17Finding
 	bestD := decisions[0]
 	for k, d := range decisions {
 		f := j.judgeUnder(s, d, c, req, body, resp, hits, nHits)
-		if k == 0 || len(f) < len(best) {
+		routingOK := true
+		for _, x := range f {
+			if c17RoutingSigs[x.Sig] {
+				routingOK = false
+			}
+		}
+		if k == 0 {
 			best, bestD = f, d
 		}
-		if len(f) == 0 {
+		if routingOK {
+			best, bestD = f, d
 			break
 		}
 	}
